@@ -1,7 +1,8 @@
-(* Refutation witnesses for C13's second sentence on the current tree (F8): mesh's sender stores
-   the result of pending.Merge(new) as the new pending payload, and event.State.Merge returns the
-   argument reduced to what the receiver lacked (or nil) - not the union.  These are evidence for
-   the known finding, not proof obligations. *)
+(* Why the payload adapter of cluster/swarm.go exists (F8, repaired): mesh's sender stores the result
+   of pending.Merge(new) as the new pending payload, and event.State.Merge - used directly as
+   GossipData.Merge before the repair - returns the argument reduced to what the receiver lacked (or
+   nil), not the union.  These witnesses are about that raw semantics ([sender_send_raw]); they are
+   kept as the record of the finding, not as proof obligations. *)
 From stdpp Require Import gmap.
 From Coq Require Import ZArith.
 From Emitter Require Import Model.Lww Model.Sender.
@@ -12,9 +13,9 @@ Definition B : replica := {[2%N := Ent 6 0 []]}.
 
 (* pending = {A}, new = {B}: the payload sent is {B}; A's update is lost *)
 Lemma C13_coalesce_refuted_lost :
-  exists out, queue_all sender_send [A; B] = Some out /\ out !! 1%N = None.
+  exists out, queue_all sender_send_raw [A; B] = Some out /\ out !! 1%N = None.
 Proof. eexists. split; vm_compute; reflexivity. Qed.
 
 (* the same payload queued twice: nothing at all is sent *)
-Lemma C13_coalesce_refuted_nothing : queue_all sender_send [A; A] = None.
+Lemma C13_coalesce_refuted_nothing : queue_all sender_send_raw [A; A] = None.
 Proof. vm_compute. reflexivity. Qed.
